@@ -553,6 +553,7 @@ class FnPE:
         self.mutated = self._mutated_names(fn)
         self.closure_used = self._closure_names(fn)
         self.plumbed = plumbed_names(fn, m)
+        self.starred_names = {n.value.id for n in ast.walk(fn) if isinstance(n, ast.Starred) and isinstance(n.ctx, ast.Load) and isinstance(n.value, ast.Name)}
 
     # ------------------------------------------------------------------ pre-scans
     def _mutated_names(self, fn):
@@ -854,6 +855,17 @@ class FnPE:
                 return out
             if tracked and nm in self.generated and isinstance(value, ast.Constant) and isinstance(value.value, (str, bool, type(None))):
                 env[nm] = Con(value)
+            if tracked and isinstance(value, ast.Call) and nm in self.starred_names and self.list_is_frozen(nm):
+                # t = f(...) with f returning an n-tuple, t later spread with *t: the items get names
+                n_ = self.ret_arity(value)
+                if n_ is not None and 0 < n_ <= MAXUNROLL:
+                    items = [self.field(nm, i) for i in range(n_)]
+                    tg = ast.Tuple(elts=[name(f_, ast.Store(), s) for f_ in items], ctx=ast.Store())
+                    out.append(ast.copy_location(ast.Assign(targets=[tg], value=value), s))
+                    env[nm] = Tup(nm, items, ast.Tuple)
+                    out.append(ast.copy_location(ast.Assign(targets=[name(nm, ast.Store(), s)], value=self.materialise(env[nm], s)), s))
+                    self.stat("folds")
+                    return out
             m.targets = [copy.deepcopy(s.targets[0])]
             return out + [m]
         # general targets
@@ -1893,6 +1905,10 @@ class FnPE:
             self.locals.add(nm)
             if nm not in own_params:
                 self.generated.add(nm)
+        for n_ in ast.walk(callee):
+            if isinstance(n_, ast.Starred) and isinstance(n_.ctx, ast.Load) and isinstance(n_.value, ast.Name) and n_.value.id in mp:
+                self.starred_names.add(mp[n_.value.id])
+        self.plumbed |= {mp[k_] for k_ in plumbed_names(callee, self.m) if k_ in mp}
         for k in self._mutated_names(callee):
             if k[1] in mp:
                 self.mutated.add((k[0], mp[k[1]]))
@@ -2064,7 +2080,43 @@ def cleanup(body, generated, params, is_local=None):
             return out
         body = drop(body)
         body = [subst(s, mp2) for s in body]
-    return body
+    return _fuse_tests(body, generated)
+
+
+def _fuse_tests(body, generated):
+    """g = <expr>; if g: ...   with g a name of this pass that is read nowhere else  ->  if <expr>: ..."""
+    loads = {}
+    for n in own_nodes(body):
+        if isinstance(n, ast.Name) and isinstance(n.ctx, ast.Load):
+            loads[n.id] = loads.get(n.id, 0) + 1
+        elif isinstance(n, (ast.FunctionDef, ast.AsyncFunctionDef, ast.Lambda)):
+            for x in ast.walk(n):
+                if isinstance(x, ast.Name):
+                    loads[x.id] = loads.get(x.id, 0) + 2
+
+    def fuse(stmts):
+        out = []
+        for s in stmts:
+            for f in ("body", "orelse", "finalbody"):
+                sub = getattr(s, f, None)
+                if isinstance(sub, list) and sub and isinstance(sub[0], ast.stmt):
+                    setattr(s, f, fuse(sub))
+            for h in getattr(s, "handlers", []) or []:
+                h.body = fuse(h.body)
+            prev = out[-1] if out else None
+            if isinstance(s, ast.If) and isinstance(prev, ast.Assign) and len(prev.targets) == 1 and isinstance(prev.targets[0], ast.Name) \
+                    and prev.targets[0].id in generated and loads.get(prev.targets[0].id, 0) == 1:
+                g = prev.targets[0].id
+                t = s.test
+                if isinstance(t, ast.Name) and t.id == g:
+                    s.test = prev.value
+                    out.pop()
+                elif isinstance(t, ast.UnaryOp) and isinstance(t.op, ast.Not) and isinstance(t.operand, ast.Name) and t.operand.id == g:
+                    t.operand = prev.value
+                    out.pop()
+            out.append(s)
+        return out
+    return fuse(body)
 
 
 def _global_ref(e, is_local):
